@@ -38,8 +38,10 @@ T == Traces[tid]
 Files == [f \in DOMAIN T.files |-> [dir |-> "", name |-> f, items |-> T.files[f]]]
 Ev == T.ev[l]
 
-Macros == UNION {{Files[f].items[i].m : i \in 1..Len(Files[f].items)} : f \in DOMAIN Files}
-            \cup UNION {{T.ev[i].name} : i \in 1..Len(T.ev)}
+\* every macro name mentioned by any trace of the batch (the table is total over it)
+MacrosOf(t) == UNION {{t.files[f][i].m : i \in 1..Len(t.files[f])} : f \in DOMAIN t.files}
+                 \cup {t.ev[i].name : i \in 1..Len(t.ev)}
+Macros == UNION {MacrosOf(Traces[k]) : k \in 1..Len(Traces)}
 
 Fresh == [defs |-> [m \in Macros |-> "U"], once |-> {}, todo |-> <<>>, frames |-> <<>>,
           attr |-> {}, evald |-> {}, warns |-> <<>>, err |-> FALSE, done |-> FALSE]
